@@ -322,6 +322,8 @@ def main(ctx):
     for i in range(0, len(t4), 2 if ctx.quick else 1):
         cells.append({"kind": "values", "d": 3, "first": t4[i:i + (2 if ctx.quick else 1)]})
     lowers = [0.0, -7.5, 1e3, -1e6, float(2**30), 1e10, float(ctx.seed) + 0.5]
+    if not ctx.quick:
+        lowers += [0.1, -0.3, 1.0 / 3.0, 123.456, -1e-3, 1e-6, 5e5, -2.0**20, 7e7, 2.0**29, -1e9, 3.3e4]
     for lo in lowers:
         cells.append({"kind": "scale", "lowers": [lo]})
     ctx.bounds = {"value_lattice_1_2_params": V, "value_lattice_3_params": V3, "scale_lowers": lowers, "cap_range_over_precision": CAP,
